@@ -42,6 +42,23 @@ fn main() {
             0
         }
         "survey" => survey(&args),
+        "render" => {
+            render_debug(&args);
+            0
+        }
+        "render-old" => {
+            // debug: render N random streams
+            let n: u64 = args.get(2).and_then(|s| s.parse().ok()).unwrap_or(5);
+            for i in 0..n {
+                let (t, l, r) = verif::engine::sample_one(&verif::props::c03::case_strategy(), i);
+                let s = verif::model::gen_stream(&t, &verif::model::GenCfg::default());
+                let (text, _) = verif::model::render(&s, &l, r);
+                println!("=== #{i} rich={r}\n{text}<<<");
+                let o = verif::drive::parse_str(&text);
+                println!("{}", o.dump());
+            }
+            0
+        }
         "nest" => verif::props::c11::child_main(&args),
         "list" => {
             for p in props::all() {
@@ -659,4 +676,29 @@ fn survey(args: &[String]) -> i32 {
         }
     }
     0
+}
+
+
+fn render_debug(args: &[String]) {
+    if let Some(t) = arg_after(args, "--tree") {
+        let l = arg_after(args, "--layout").unwrap_or_default();
+        let rich = arg_after(args, "--rich").map(|r| r == "true").unwrap_or(true);
+        let s = verif::model::gen_stream(&verif::engine::unhex(&t), &verif::model::GenCfg::default());
+        println!("{s:#?}");
+        let (text, _) = verif::model::render(&s, &verif::engine::unhex(&l), rich);
+        println!("{text}<<<");
+        for e in verif::model::expected_events(&s) {
+            println!("  {}", e.short());
+        }
+        println!("{}", verif::drive::parse_str(&text).dump());
+        return;
+    }
+    let n: u64 = args.get(2).and_then(|s| s.parse().ok()).unwrap_or(5);
+    for i in 0..n {
+        let (t, l, r) = verif::engine::sample_one(&verif::props::c03::case_strategy(), i);
+        let s = verif::model::gen_stream(&t, &verif::model::GenCfg::default());
+        let (text, _) = verif::model::render(&s, &l, r);
+        println!("=== #{i} rich={r}\n{text}<<<");
+        println!("{}", verif::drive::parse_str(&text).dump());
+    }
 }
